@@ -46,6 +46,18 @@ func H_C18_limit() {
 		var err error
 		_ = verif.Atomically(w.Ctx, func(ctx sdk.Context) error {
 			_, err = ms.UpdateParams(ctx, &adaptertypes.MsgUpdateParams{Signer: signer, Params: adaptertypes.Params{MaxPassthroughPayloadSize: v}})
+			// something later in the same transaction (a query, another packet) may read the limit before the outcome
+			// of the transaction is known: it sees the transaction's own write
+			if verif.Bool("limit-read-inside-the-transaction") {
+				qs := adaptercomp.NewQueryServer(w.K.Adapter())
+				if resp, qerr := qs.Params(ctx, &adaptertypes.QueryParamsRequest{}); qerr == nil {
+					seen := current
+					if err == nil {
+						seen = v
+					}
+					verif.Assert(resp.Params.MaxPassthroughPayloadSize == seen, "read-inside-transaction-sees-its-own-write")
+				}
+			}
 			if err == nil && reverted {
 				return errors.New("a later message of the transaction failed")
 			}
